@@ -46,6 +46,25 @@ def ctrlSpec (i : Instr) (s : State) : Option State :=
   | .code .quote => match s.exec with
     | x :: e => some { s with exec := e, code := x :: s.code }
     | _ => some s
+  -- the INDEX stack, as documented in index.rs
+  -- INDEX.INCREASE: "increases the current value by one if current < destination, otherwise a NOOP"
+  | .index .increase => match s.index with
+    | (c, d) :: l => some (if c < d then { s with index := (c + 1, d) :: l } else s)
+    | [] => some s
+  -- INDEX.POP / FLUSH
+  | .index .pop => some { s with index := s.index.tail }
+  | .index .flush => some { s with index := [] }
+  -- INDEX.CURRENT / DESTINATION push the field of the top index
+  | .index .current => match s.index with
+    | (c, _) :: _ => some (pushInt s (lenI32 c))
+    | [] => some s
+  | .index .destination => match s.index with
+    | (_, d) :: _ => some (pushInt s (lenI32 d))
+    | [] => some s
+  -- INDEX.DEFINE: the top INTEGER becomes the destination of a new index starting at 0
+  | .index .define => match s.int with
+    | i :: l => some { s with int := l, index := (0, (max 0 i.toInt).toNat) :: s.index }
+    | [] => some s
   | _ => none
 
 /-- the loop state seen from outside the body: everything but EXEC and INDEX -/
